@@ -41,7 +41,12 @@ MANIFEST = {
                  "compiled backend and a Python byte-array oracle",
 }
 
-RULE = ("a sequence = one allocation of 1..10 items (+ margins) of one of 13 element kinds and <= 40 operations drawn from "
+RULE = ("every run starts with a scripted part that does not depend on chance: for each of the 13 element kinds every "
+        "operation (index read / write / `x[i] += v`, slice, slice assignment, + and -, pointer - pointer, addressof, len) "
+        "is applied to every category of cdata (owning array, slice view, plain pointer, owning pointer from "
+        "ffi.new('T *') at indexes -1, 1, 2 and random non-zero ones with convertible values, null / void / retyped "
+        "pointer, non-indexable cdata) -- at least 10 cases per (operation, category) pair, counted in the "
+        "distribution as scripted:<op>:<category>; then random sequences: a sequence = one allocation of 1..10 items (+ margins) of one of 13 element kinds and <= 40 operations drawn from "
         "index read/write, slice read/write (right count, wrong count, failing item in the middle, bytes, cdata array "
         "sources incl. overlapping ones), + / - with ints, pointer - pointer, addressof(x, i), offsetof, len, casts to "
         "misaligned / differently typed pointers, applied to the array, to nested slice views and to derived pointers; "
@@ -348,9 +353,88 @@ class Seq:
                 self.mem[off:off + o.isize] = it
                 orc = ("ok", None)
         val = mkval(self.ffi, self.ek, vs)
+        snap = self._snapshot(o, key) if orc[0] == "err" else None
         r = self._exc(lambda: o.cd.__setitem__(mkarg(key), val))
+        if snap is not None and r[0] == "ok":
+            self._undo(snap)
         line = "set %d %s %s" % (op["o"], arg_line(key), item_line(it))
         return r, orc, line, None, True
+
+    # -- a store the property forbids must not damage the process when a broken implementation performs it
+    def _snapshot(self, o, key):
+        """The bytes a wrongly accepted x[key] = v would overwrite, when they lie inside the Python object that
+        holds the allocation (the 8 bytes in front of the data: padding / the length field; the unused tail of
+        the 16-byte-rounded malloc block behind a single owned item).  Read only inside that object."""
+        if o is not self.objs[0] or key[0] != "i" or not SS_MIN <= key[1] <= SS_MAX:
+            return None
+        boff, size = key[1] * o.isize, o.isize
+        before = -8 <= boff and boff + size <= 0
+        slack = (-(48 + size)) % 16
+        after = o.k == "own" and size <= boff and boff + size <= size + slack
+        if not (before or after):
+            return None
+        p = self.ffi.cast("char *", o.cd) + boff
+        return p, bytes(self.ffi.buffer(p, size))
+
+    def _undo(self, snap):
+        self.ffi.buffer(snap[0], len(snap[1]))[:] = snap[1]
+
+    def _rmw_value(self, old, d):
+        """Bytes of `old + d` for the element kind, or '!Kind' when Python refuses the addition / the store."""
+        if self.flav == "int":
+            return conv(self.ek, ["i", int.from_bytes(old, "little", signed=self.signed) + d])
+        if self.flav == "float":
+            code = "<d" if self.size == 8 else "<f"
+            x = struct.unpack(code, old)[0]
+            if not (math.isfinite(x) and abs(x) < 1e30):
+                raise InfraError("generator produced a read-modify-write on a non-finite float")
+            return struct.pack(code, x + d)
+        if self.flav == "ptr":
+            return ((int.from_bytes(old, "little") + 4 * d) % M64).to_bytes(8, "little")   # int * arithmetic
+        return "!TypeError"            # bytes + int, struct + int
+
+    def rmw_ok(self, o, key):
+        """Can `x[key] += d` be predicted exactly (floats: finite, not huge)?"""
+        if self.flav != "float":
+            return True
+        orc = self.o_index(o, key)
+        if orc[0] != "ok" or not self.safe(o, orc[1], o.isize):
+            return True
+        x = struct.unpack("<d" if self.size == 8 else "<f", bytes(self.mem[orc[1]:orc[1] + o.isize]))[0]
+        return math.isfinite(x) and abs(x) < 1e30
+
+    def op_rmw(self, op):
+        """x[key] += d : a read, an addition in Python, a write."""
+        o = self.objs[op["o"]]
+        key, d = op["k"], op["d"]
+        orc = self.o_index(o, key)
+        mutating = False
+        if orc[0] == "ok":
+            off = orc[1]
+            if not self.safe(o, off, o.isize):
+                raise InfraError("generator produced an unsafe read-modify-write: %r" % (op,))
+            old = bytes(self.mem[off:off + o.isize])
+            new = self._rmw_value(old, d)
+            if isinstance(new, str):
+                orc = ("err", new[1:])
+                line, want = "get %d %s" % (op["o"], arg_line(key)), "ok " + (old.hex() or "-")
+            else:
+                self.mem[off:off + o.isize] = new
+                orc = ("ok", None)
+                line, want, mutating = "set %d %s %s" % (op["o"], arg_line(key), new.hex()), None, True
+        else:
+            line, want = "get %d %s" % (op["o"], arg_line(key)), None
+        cd, k = o.cd, mkarg(key)
+        snap = self._snapshot(o, key) if orc[0] == "err" and orc[1] == "IndexError" else None
+
+        def f():
+            cd[k] += d
+        r = self._exc(f)
+        if snap is not None and r[0] == "ok":
+            self._undo(snap)
+        if want is None and not mutating:
+            want = "err " + r[1] if r[0] == "err" else "ok ?"
+        return r, orc, line, want, mutating
 
     def op_slice(self, op):
         o = self.objs[op["o"]]
@@ -604,6 +688,39 @@ class Seq:
         return self._define(Obj(cd, "other", 0, None, 9, 4, "abs"))
 
 
+# ------------------------------------------------------------------ categories of cdata objects
+
+def category(s, o):
+    if o.prov == "z":
+        return "zero-size-item"
+    if o.k == "other":
+        return "non-indexable"
+    if o.k == "own":
+        return "owning-pointer"
+    if o.k == "arr":
+        return "array-owning" if o is s.objs[0] else "array-view"
+    if o.voidp:
+        return "pointer-void"
+    if o.tid != 1:
+        return "pointer-retyped"
+    if o.prov == "abs":
+        return "pointer-null" if o.off == 0 else "pointer-null+k"
+    if not s.inside(o.off, 0):
+        return "pointer-wild"
+    return "pointer" if (o.off % M64) % s.size == 0 else "pointer-misaligned"
+
+
+OPS_ON_OBJECTS = ("get", "set", "rmw", "slice", "sset", "add", "sub", "addrof", "len")
+MIN_CASES = 10
+# (operation, category) pairs the scripted part of every run guarantees at least MIN_CASES times
+REQUIRED = ([(op, c) for op in ("get", "set", "rmw", "slice", "sset", "add", "sub", "addrof", "len")
+             for c in ("array-owning", "array-view", "pointer", "owning-pointer")]
+            + [(op, c) for op in ("get", "set", "slice", "add", "sub", "addrof", "len")
+               for c in ("pointer-null", "non-indexable")]
+            + [(op, c) for op in ("add", "sub", "addrof", "len") for c in ("pointer-void",)]
+            + [(op, c) for op in ("add", "sub", "len") for c in ("pointer-retyped",)])
+
+
 # ------------------------------------------------------------------ generation
 
 def rnd_bytes(rng, n):
@@ -757,7 +874,10 @@ def gen_op(rng, s):
     if r < 0.34:
         if o.tid != 1:
             return {"op": "get", "o": oi, "k": safe_index(o)}
-        return {"op": "set", "o": oi, "k": safe_index(o), "v": gen_value(rng, s.ek)}
+        key = safe_index(o)
+        if rng.random() < 0.25 and s.rmw_ok(o, key):
+            return {"op": "rmw", "o": oi, "k": key, "d": rng.randint(-3, 3)}
+        return {"op": "set", "o": oi, "k": key, "v": gen_value(rng, s.ek)}
     if r < 0.48:
         a, b, c = safe_bounds(o)
         if o.k == "other" or (o.k == "ptr" and (o.tid != 1 or o.prov == "abs")):
@@ -850,6 +970,190 @@ def new_sequence(rng):
     return seq
 
 
+# ------------------------------------------------------------------ the scripted part of every run
+
+def _I(n):
+    return ["i", n]
+
+
+NONE, FLOAT, STR = ["n"], ["o", "float"], ["o", "str"]
+HUGE = [1 << 63, -(1 << 63) - 1, 1 << 64]
+
+
+def scripted_sequences(rng):
+    """Sequences that do not depend on chance: for every element kind, every operation is applied to every
+    category of cdata object (owning array, slice view, plain pointer, owning pointer from ffi.new('T *'), null /
+    void / retyped pointer, non-indexable cdata) with in-range, boundary, negative, huge and non-int arguments.
+    Writes come with a convertible value, so that only the index can be the reason for a rejection.  The order
+    inside a sequence goes from stores that stay inside the Python object holding the allocation to farther
+    ones: a broken implementation is caught (and the sequence stopped) at the harmless ones."""
+    seqs = []
+    for ek in EK_ORDER:
+        size, flav = EKINDS[ek][1], EKINDS[ek][3]
+
+        def val():
+            return gen_value(rng, ek, bad_ok=False)
+
+        def d():
+            return rng.choice([1, 2, -1, 3])
+        numeric = flav in ("int", "float", "ptr")
+
+        # ---- A. the owning pointer p = ffi.new("T *")
+        near = [-1, 1, 2]
+        rnd = [rng.choice([-1, 1]) * rng.randint(3, 9), rng.choice([-1, 1]) * rng.randint(10, 100000)]
+        ops = []
+        for i in near + rnd:
+            ops.append({"op": "get", "o": 0, "k": _I(i)})
+        ops.append({"op": "get", "o": 0, "k": _I(0)})
+        ops.append({"op": "set", "o": 0, "k": _I(0), "v": val()})
+        for i in near + rnd:
+            ops.append({"op": "set", "o": 0, "k": _I(i), "v": val()})
+        ops.append({"op": "rmw", "o": 0, "k": _I(0), "d": d()})
+        for i in near + rnd:
+            ops.append({"op": "rmw", "o": 0, "k": _I(i), "d": d()})
+        for k in [_I(h) for h in HUGE] + [NONE, FLOAT, STR]:
+            ops.append({"op": "get", "o": 0, "k": k})
+            ops.append({"op": "set", "o": 0, "k": k, "v": val()})
+        ops.append({"op": "rmw", "o": 0, "k": _I(1 << 63), "d": 1})
+        ops.append({"op": "rmw", "o": 0, "k": NONE, "d": 1})
+        seqs.append({"ek": ek, "alloc": "own", "init": rnd_bytes(rng, size).hex(), "ops": ops})
+
+        ops = []
+        for a, b, c in [(_I(0), _I(1), NONE), (_I(0), _I(0), NONE), (_I(1), _I(1), NONE), (_I(1), _I(0), NONE),
+                        (NONE, _I(1), NONE), (_I(0), NONE, NONE), (_I(0), _I(1), _I(1)), (_I(1 << 63), _I(1), NONE),
+                        (FLOAT, _I(1), NONE), (_I(-1), _I(-1), _I(2))]:
+            ops.append({"op": "slice", "o": 0, "a": a, "b": b, "c": c})
+        for a, b, rhs in [(0, 1, {"t": "list", "vs": [val()]}), (0, 1, {"t": "list", "vs": []}),
+                          (0, 1, {"t": "tuple", "vs": [val(), val()]}), (0, 0, {"t": "list", "vs": []}),
+                          (1, 0, {"t": "noiter"}), (0, 1, {"t": "noiter"}), (0, 1, {"t": "del"}),
+                          (0, 1, {"t": "gen", "vs": [val()]})]:
+            ops.append({"op": "sset", "o": 0, "a": _I(a), "b": _I(b), "c": NONE, "rhs": rhs})
+        ops.append({"op": "sset", "o": 0, "a": NONE, "b": _I(1), "c": NONE, "rhs": {"t": "list", "vs": [val()]}})
+        ops.append({"op": "sset", "o": 0, "a": _I(0), "b": _I(1 << 64), "c": NONE, "rhs": {"t": "list", "vs": [val()]}})
+        for w, sign, rev in [(_I(0), 1, False), (_I(1), 1, False), (_I(1), -1, False), (_I(2), 1, True),
+                             (_I(1 << 62), 1, False), (_I(1 << 63), 1, False), (NONE, 1, False), (FLOAT, -1, False),
+                             (_I(-3), 1, False), (STR, 1, True)]:
+            ops.append({"op": "add", "o": 0, "w": w, "sign": sign, "rev": rev})
+        first_new = 1 + 4       # objects created so far: 4 accepted slices, then the accepted additions
+        for a, b in [(first_new, 0), (first_new + 1, 0), (0, 0), (first_new + 1, first_new + 2), (0, first_new)] * 2:
+            ops.append({"op": "sub", "a": a, "b": b})
+        for i in [_I(0), _I(1), _I(-1), _I(7), _I(SS_MAX // size + 1), _I(1 << 63), NONE, FLOAT, _I(SS_MAX // size),
+                  _I(-(1 << 64))]:
+            ops.append({"op": "addrof", "o": 0, "i": i})
+        ops += [{"op": "len", "o": 0}] * 10
+        seqs.append({"ek": ek, "alloc": "own", "init": rnd_bytes(rng, size).hex(), "ops": ops})
+
+        # ---- B. an array with margins: 0 = T[10] (owning), 1 = its view [3:7], 2 = pointer to item 4,
+        #         3 = null, 4 = non-indexable, 5 = void *, 6 = retyped pointer, 7 = view [0:4], 8 = misaligned
+        setup = [{"op": "slice", "o": 0, "a": _I(3), "b": _I(7), "c": NONE},
+                 {"op": "add", "o": 1, "w": _I(1), "sign": 1, "rev": False},
+                 {"op": "null"}, {"op": "other"}, {"op": "voidp", "o": 1}, {"op": "retype", "o": 1},
+                 {"op": "slice", "o": 0, "a": _I(0), "b": _I(4), "c": NONE},
+                 {"op": "castoff", "o": 1, "k": 1}]
+
+        def arr_seq(ops):
+            seqs.append({"ek": ek, "alloc": "arr", "init": rnd_bytes(rng, 10 * size).hex(), "ops": setup + ops})
+
+        # item access: (object, indexes that must be accepted, indexes that must be rejected but stay inside the
+        # allocation / the owning object if a broken implementation accepts them, far or malformed ones)
+        plan = [(0, [0, 9, 4], [-1], [10, 11, -10, -11]),
+                (1, [0, 3, 1], [-1, 4, 5, -3, 6], []),
+                (2, [0, -1, 1, 5, -4], [], [])]
+        for oid, good, near_bad, read_only_bad in plan:
+            ops = []
+            for i in near_bad + read_only_bad + good:
+                ops.append({"op": "get", "o": oid, "k": _I(i)})
+            for i in good:
+                ops.append({"op": "set", "o": oid, "k": _I(i), "v": val()})
+                ops.append({"op": "rmw", "o": oid, "k": _I(i), "d": d()})
+            for i in near_bad:
+                ops.append({"op": "set", "o": oid, "k": _I(i), "v": val()})
+                ops.append({"op": "rmw", "o": oid, "k": _I(i), "d": d()})
+            for k in [_I(h) for h in HUGE] + [NONE, FLOAT, STR]:
+                ops.append({"op": "get", "o": oid, "k": k})
+                ops.append({"op": "set", "o": oid, "k": k, "v": val()})
+                ops.append({"op": "rmw", "o": oid, "k": k, "d": 1})
+            arr_seq(ops)
+        # null pointer and non-indexable cdata: every access is refused
+        ops = []
+        for oid in (3, 4):
+            for k in [_I(0), _I(1), _I(-1), _I(1 << 63), NONE, FLOAT]:
+                ops.append({"op": "get", "o": oid, "k": k})
+                ops.append({"op": "set", "o": oid, "k": k, "v": val()})
+            for a, b, c in [(_I(1), _I(0), NONE), (NONE, _I(0), NONE), (_I(0), _I(0), _I(1)), (STR, _I(0), NONE),
+                            (_I(0), _I(1 << 63), NONE)]:
+                ops.append({"op": "slice", "o": oid, "a": a, "b": b, "c": c})
+        ops += [{"op": "slice", "o": 4, "a": _I(0), "b": _I(1), "c": NONE},
+                {"op": "sset", "o": 4, "a": _I(0), "b": _I(1), "c": NONE, "rhs": {"t": "list", "vs": [val()]}}]
+        arr_seq(ops)
+
+        # slices and slice assignment
+        ops = []
+        for oid, bounds in [(0, [(0, 10), (2, 5), (10, 10), (0, 11), (-1, 2), (3, 2), (11, 11), (0, 0)]),
+                            (1, [(0, 4), (1, 3), (4, 4), (0, 5), (-1, 2), (2, 1), (4, 5), (-3, 6)]),
+                            (2, [(-4, 6), (0, 0), (-1, 2), (2, 1), (0, 6), (5, 6), (-4, -4), (1, 1)])]:
+            for a, b in bounds:
+                ops.append({"op": "slice", "o": oid, "a": _I(a), "b": _I(b), "c": NONE})
+            for a, b, c in [(NONE, _I(2), NONE), (_I(0), NONE, NONE), (_I(0), _I(2), _I(1)), (_I(0), _I(1 << 63), NONE),
+                            (FLOAT, _I(2), NONE), (_I(0), _I(2), _I(2))]:
+                ops.append({"op": "slice", "o": oid, "a": a, "b": b, "c": c})
+        arr_seq(ops)
+        ops = []
+        two, three = [val(), val()], [val(), val(), val()]
+        for oid, (a, b) in [(1, (1, 3)), (0, (4, 6)), (2, (-1, 1))]:
+            ops += [{"op": "sset", "o": oid, "a": _I(a), "b": _I(b), "c": NONE, "rhs": {"t": "list", "vs": two}},
+                    {"op": "sset", "o": oid, "a": _I(a), "b": _I(b), "c": NONE, "rhs": {"t": "tuple", "vs": [val()]}},
+                    {"op": "sset", "o": oid, "a": _I(a), "b": _I(b), "c": NONE, "rhs": {"t": "gen", "vs": three}},
+                    {"op": "sset", "o": oid, "a": _I(a), "b": _I(b), "c": NONE, "rhs": {"t": "list", "vs": []}},
+                    {"op": "sset", "o": oid, "a": _I(a), "b": _I(b), "c": NONE,
+                     "rhs": {"t": "list", "vs": [val(), ["s", "x"]]}},
+                    {"op": "sset", "o": oid, "a": _I(a), "b": _I(b), "c": NONE, "rhs": {"t": "noiter"}},
+                    {"op": "sset", "o": oid, "a": _I(a), "b": _I(b), "c": NONE, "rhs": {"t": "del"}},
+                    {"op": "sset", "o": oid, "a": _I(b), "b": _I(a), "c": NONE, "rhs": {"t": "list", "vs": two}},
+                    {"op": "sset", "o": oid, "a": _I(a), "b": _I(b), "c": _I(1), "rhs": {"t": "list", "vs": two}},
+                    {"op": "sset", "o": oid, "a": NONE, "b": _I(b), "c": NONE, "rhs": {"t": "list", "vs": two}},
+                    {"op": "sset", "o": oid, "a": _I(a), "b": _I(1 << 63), "c": NONE, "rhs": {"t": "list", "vs": two}}]
+        # out of range by one: rejected, and inside the margins should it be accepted
+        ops += [{"op": "sset", "o": 1, "a": _I(0), "b": _I(5), "c": NONE, "rhs": {"t": "list", "vs": [val() for _ in range(5)]}},
+                {"op": "sset", "o": 1, "a": _I(-1), "b": _I(2), "c": NONE, "rhs": {"t": "list", "vs": three}},
+                {"op": "sset", "o": 1, "a": _I(4), "b": _I(5), "c": NONE, "rhs": {"t": "list", "vs": [val()]}}]
+        if flav != "float":
+            ops += [{"op": "sset", "o": 1, "a": _I(0), "b": _I(4), "c": NONE, "rhs": {"t": "carr", "o": 7}},   # overlapping
+                    {"op": "sset", "o": 1, "a": _I(0), "b": _I(3), "c": NONE, "rhs": {"t": "carr", "o": 7}},
+                    {"op": "sset", "o": 7, "a": _I(0), "b": _I(4), "c": NONE, "rhs": {"t": "carr", "o": 1}},
+                    {"op": "sset", "o": 0, "a": _I(2), "b": _I(6), "c": NONE, "rhs": {"t": "carr", "o": 1}}]
+        if flav in ("char", "int"):
+            ops += [{"op": "sset", "o": 1, "a": _I(0), "b": _I(2), "c": NONE, "rhs": {"t": "bytes", "h": "0141", "ba": False}},
+                    {"op": "sset", "o": 1, "a": _I(0), "b": _I(2), "c": NONE, "rhs": {"t": "bytes", "h": "014142", "ba": True}}]
+        arr_seq(ops)
+
+        # arithmetic, addressof, len on every category
+        ops = []
+        for oid in (0, 1, 2, 3, 4, 5, 6):
+            for w, sign, rev in [(_I(1), 1, False), (_I(2), -1, False), (_I(0), 1, True), (_I(1 << 62), 1, False),
+                                 (_I(1 << 63), 1, False), (NONE, 1, False), (FLOAT, -1, False)]:
+                if oid == 4 and w[0] != "i":
+                    w = _I(1)
+                ops.append({"op": "add", "o": oid, "w": w, "sign": sign, "rev": rev})
+        arr_seq(ops)
+        ops = []
+        pairs = [(2, 1), (2, 0), (2, 2), (2, 6), (2, 4), (2, 8), (8, 2), (2, 7), (2, 5),
+                 (1, 2), (0, 2), (1, 1), (0, 0), (1, 0), (0, 1), (1, 6), (0, 4),
+                 (3, 3), (3, 4), (3, 6), (3, 5), (4, 4), (4, 2), (4, 3), (4, 1), (4, 0), (4, 5), (4, 6),
+                 (5, 5), (5, 2), (5, 6), (5, 4), (6, 6), (6, 2), (6, 5), (6, 4), (6, 1)]
+        for a, b in pairs:
+            ops.append({"op": "sub", "a": a, "b": b})
+        arr_seq(ops)
+        ops = []
+        for oid in (0, 1, 2, 3, 4, 5):
+            for i in [_I(0), _I(1), _I(-1), _I(12), _I(SS_MAX // size + 1), _I(1 << 63), NONE, FLOAT]:
+                ops.append({"op": "addrof", "o": oid, "i": i})
+        for oid in (0, 1, 2, 3, 4, 5, 6):
+            ops.append({"op": "len", "o": oid})
+        arr_seq(ops)
+    return seqs
+
+
 # ------------------------------------------------------------------ running
 
 def nontrivial_key(ek, op, real):
@@ -866,7 +1170,7 @@ def case_of(seq, k):
     return {"seq": {"ek": seq["ek"], "alloc": seq["alloc"], "init": seq["init"], "ops": list(seq["ops"][:k])}}
 
 
-def run_sequence(ctx, seq, nops, rng=None, collect=True):
+def run_sequence(ctx, seq, nops, rng=None, collect=True, scripted=False):
     """Execute (and, when rng is given, extend) a sequence.  Returns (lines, expects, failed)."""
     s = Seq(seq)
     preset = list(seq["ops"])
@@ -892,6 +1196,11 @@ def run_sequence(ctx, seq, nops, rng=None, collect=True):
         ctx.case(nontrivial_key(s.ek, op, real), sample=None)
         ctx.count("%s:%s" % (op["op"], "ok" if real[0] == "ok" else real[1]))
         ctx.count("kind:" + s.ek)
+        if op["op"] in OPS_ON_OBJECTS:
+            tgt = s.objs[op["a"] if op["op"] == "sub" else op["o"]]
+            ctx.count("cat:%s:%s" % (op["op"], category(s, tgt)))
+            if scripted:
+                ctx.count("scripted:%s:%s" % (op["op"], category(s, tgt)))
         if op["op"] == "addrof" and s.objs[op["o"]].prov == "z":
             ctx.count("addrof-zero-size-item:%s" % ("ok" if real[0] == "ok" else real[1]))
         robs = real if real[0] == "err" or not mutating else ("ok", None)
@@ -922,7 +1231,18 @@ def correspond(ctx, nseq=None, oracle_only=False):
     nseq = nseq if nseq is not None else ctx.n(400, 20000)
     lines, expect = [], []
     zero_size_canary(ctx)
-    for _ in range(nseq):
+    for seq in scripted_sequences(ctx.rng):
+        l, e, failed = run_sequence(ctx, seq, len(seq["ops"]), None, collect=not oracle_only, scripted=True)
+        lines += l
+        expect += e
+        if ctx.failures:
+            break
+    if not ctx.failures:
+        short = [(op, c, ctx.distribution.get("scripted:%s:%s" % (op, c), 0)) for op, c in REQUIRED
+                 if ctx.distribution.get("scripted:%s:%s" % (op, c), 0) < MIN_CASES]
+        if short:
+            raise InfraError("the scripted part no longer guarantees %d cases of %r" % (MIN_CASES, short))
+    for _ in range(0 if ctx.failures else nseq):
         seq = new_sequence(ctx.rng)
         nops = ctx.rng.randint(8, 40)
         l, e, failed = run_sequence(ctx, seq, nops, ctx.rng, collect=not oracle_only)
